@@ -18,7 +18,7 @@ RULE = ("regular axes with step D in {1,2,7,60,900,3600}; n=0..30; series of pla
         "{k,k+1}, or series length in {k,k+1}, or a duration not a multiple of D, or a window containing a missing value")
 ASSUMPTIONS = ["sampling is regular (the statement's premise)", "dyadic values: window ranges and tolerances compare exactly"]
 Q = 0.125
-STEPS = [1, 2, 7, 60, 900, 3600]
+STEPS = [1, 2, 7, 60, 900, 3600, 3600, 86400, 90000, 129600, 604800]  # up to daily / 25 h / 36 h / weekly sampling
 
 
 def _fl():
